@@ -4,8 +4,10 @@ pub mod c01;
 pub mod c02;
 pub mod c03;
 pub mod c04;
+pub mod c05;
+pub mod tzchild;
 
-pub const ALL: &[&str] = &["C01", "C02", "C03", "C04"];
+pub const ALL: &[&str] = &["C01", "C02", "C03", "C04", "C05"];
 
 pub fn run(ctx: &Ctx) -> Option<Outcome> {
     match ctx.prop.as_str() {
@@ -13,12 +15,18 @@ pub fn run(ctx: &Ctx) -> Option<Outcome> {
         "C02" => Some(c02::run(ctx)),
         "C03" => Some(c03::run(ctx)),
         "C04" => Some(c04::run(ctx)),
+        "C05" => Some(c05::run(ctx)),
         _ => None,
     }
 }
 
 /// Child-process modes (re-executions of the harness binary). Returns the exit code.
-pub fn child(_mode: &str, _args: &[String]) -> i32 {
-    eprintln!("unknown child mode");
-    3
+pub fn child(mode: &str, args: &[String]) -> i32 {
+    match mode {
+        "tzq" => tzchild::child_main(args),
+        _ => {
+            eprintln!("unknown child mode");
+            3
+        }
+    }
 }
